@@ -1,6 +1,7 @@
 package h
 
 import (
+	"fmt"
 	"testing"
 	"time"
 
@@ -30,13 +31,72 @@ type C22Scn struct {
 	SyncFail []int    `json:"sync_fail,omitempty"` // which File.Sync calls fail with EIO (1-based), injected in every crash-point run alike
 	OnlyK    int      `json:"only_k,omitempty"` // replay/minimised: run only this crash point (-1 = all)
 	Sched    SchedCfg `json:"sched"`
+	// concurrent class: Conc[i] is the request list of client i (its own connection); Ops is then empty.
+	// Requests of different clients overlap under the seeded scheduler, so backend calls of several WRITEs
+	// and COMMITs on the one file interleave; the crash points enumerated are those of that interleaving.
+	Conc    [][]C22Op     `json:"conc,omitempty"`
+	Workers int           `json:"workers,omitempty"`
+	Stalls  []simfs.Fault `json:"stalls,omitempty"`
 }
 
 type c22Write struct {
-	off   uint64
-	data  []byte
-	must  bool // acknowledged FILE_SYNC/DATA_SYNC before the crash, or covered by an acknowledged COMMIT
-	acked bool
+	off      uint64
+	data     []byte
+	must     bool // acknowledged FILE_SYNC/DATA_SYNC before the crash, or covered by an acknowledged COMMIT
+	acked    bool
+	inv, ret int64 // scheduler stamps of the call and of its reply (ret = 0: never answered)
+}
+
+// c22Client runs one request list on its own connection and returns what it wrote and the verifiers it saw.
+// commits holds the call stamps of acknowledged COMMITs: such a COMMIT covers every WRITE (of any client)
+// that had been acknowledged before the COMMIT was sent.
+func c22Client(cl *Client, root, fh []byte, ops []C22Op) (writes []*c22Write, verfs [][8]byte, commits []int64) {
+	for _, op := range ops {
+		simrt.Sleep(time.Millisecond)
+		switch op.Op {
+		case "WRITE":
+			data := PayloadBytes(op.Seed, op.Len)
+			wr := &c22Write{off: op.Off, data: data, inv: simrt.Stamp()}
+			writes = append(writes, wr)
+			res, err := cl.Write(fh, op.Off, op.Stable, data)
+			if err != nil || res.Status != 0 {
+				continue
+			}
+			wr.ret = simrt.Stamp()
+			wr.acked = true
+			wr.data = data[:res.Count] // only the acknowledged prefix is promised
+			if int(res.Count) < len(data) {
+				// the rest was never accepted: a separate, unacknowledged candidate
+				writes = append(writes, &c22Write{off: op.Off + uint64(res.Count), data: data[res.Count:], inv: wr.inv})
+			}
+			if res.Committed == nfsclient.FileSync || res.Committed == nfsclient.DataSync {
+				wr.must = true
+			}
+			verfs = append(verfs, res.Verf)
+		case "COMMIT":
+			inv := simrt.Stamp()
+			r0, _, err := cl.NFS(nfsclient.NFSProcCommit, nfsclient.ArgsCommit(fh, 0, 0))
+			if err != nil || r0 == nil {
+				continue
+			}
+			cr := r0.(*nfsclient.CommitRes)
+			if cr.Status != 0 {
+				continue
+			}
+			commits = append(commits, inv)
+			verfs = append(verfs, cr.Verf)
+		case "CREATE":
+			cl.Create(root, "other", 0, nfsclient.Sattr3{}, [8]byte{})
+		}
+	}
+	return
+}
+
+func c22Workers(sc *C22Scn) int {
+	if sc.Workers > 0 {
+		return sc.Workers
+	}
+	return 1
 }
 
 // c22Run executes the history with a crash after the k-th backend call (k<0: no crash).
@@ -50,7 +110,7 @@ func c22Run(t *testing.T, sc *C22Scn, k int, o *Outcome, trace bool) (ncalls int
 		for _, nth := range sc.SyncFail {
 			w.FS.AddFault(simfs.Fault{Op: "File.Sync", Nth: nth, Kind: "eio"})
 		}
-		opts := absnfs.ExportOptions{MaxWorkers: 1, TransferSize: sc.Transfer, AttrCacheTimeout: time.Millisecond}
+		opts := absnfs.ExportOptions{MaxWorkers: c22Workers(sc), TransferSize: sc.Transfer, AttrCacheTimeout: time.Millisecond}
 		if err := w.Start(opts); err != nil {
 			o.Inconclusive = "start: " + err.Error()
 			return
@@ -81,44 +141,48 @@ func c22Run(t *testing.T, sc *C22Scn, k int, o *Outcome, trace bool) (ncalls int
 		}
 		var writes []*c22Write
 		var verfs [][8]byte
-		for _, op := range sc.Ops {
-			simrt.Sleep(time.Millisecond)
-			switch op.Op {
-			case "WRITE":
-				data := PayloadBytes(op.Seed, op.Len)
-				wr := &c22Write{off: op.Off, data: data}
-				writes = append(writes, wr)
-				res, err := cl.Write(fh, op.Off, op.Stable, data)
-				if err != nil || res.Status != 0 {
-					continue
+		var commits []int64
+		if len(sc.Conc) == 0 {
+			writes, verfs, commits = c22Client(cl, root, fh, sc.Ops)
+		} else {
+			for _, f := range sc.Stalls {
+				w.FS.AddFault(f)
+			}
+			type part struct {
+				w []*c22Write
+				v [][8]byte
+				c []int64
+			}
+			parts := make([]part, len(sc.Conc))
+			done := make(chan int, len(sc.Conc))
+			for ci := range sc.Conc {
+				ci := ci
+				ccl, err := w.Dial(fmt.Sprintf("10.0.0.%d:900", 8+ci), RootCred, nil)
+				if err != nil {
+					o.Inconclusive = "dial"
+					return
 				}
-				wr.acked = true
-				wr.data = data[:res.Count] // only the acknowledged prefix is promised
-				if int(res.Count) < len(data) {
-					// the rest was never accepted: a separate, unacknowledged candidate
-					writes = append(writes, &c22Write{off: op.Off + uint64(res.Count), data: data[res.Count:]})
-				}
-				if res.Committed == nfsclient.FileSync || res.Committed == nfsclient.DataSync {
+				defer ccl.Close()
+				simrt.Go(fmt.Sprintf("c22-client-%d", ci), func() {
+					defer simrt.Send("c22.done", done, ci)
+					parts[ci].w, parts[ci].v, parts[ci].c = c22Client(ccl, root, fh, sc.Conc[ci])
+				})
+			}
+			for range sc.Conc {
+				simrt.Recv("c22.wait", done)
+			}
+			for _, p := range parts {
+				writes = append(writes, p.w...)
+				verfs = append(verfs, p.v...)
+				commits = append(commits, p.c...)
+			}
+		}
+		// an acknowledged COMMIT covers every WRITE acknowledged before the COMMIT was sent
+		for _, ci := range commits {
+			for _, wr := range writes {
+				if wr.acked && wr.ret != 0 && wr.ret < ci {
 					wr.must = true
 				}
-				verfs = append(verfs, res.Verf)
-			case "COMMIT":
-				r0, _, err := cl.NFS(nfsclient.NFSProcCommit, nfsclient.ArgsCommit(fh, 0, 0))
-				if err != nil || r0 == nil {
-					continue
-				}
-				cr := r0.(*nfsclient.CommitRes)
-				if cr.Status != 0 {
-					continue
-				}
-				for _, wr := range writes {
-					if wr.acked {
-						wr.must = true
-					}
-				}
-				verfs = append(verfs, cr.Verf)
-			case "CREATE":
-				cl.Create(root, "other", 0, nfsclient.Sattr3{}, [8]byte{})
 			}
 		}
 		ncalls = w.FS.Completed() - base
@@ -181,23 +245,40 @@ func c22Run(t *testing.T, sc *C22Scn, k int, o *Outcome, trace bool) (ncalls int
 					continue
 				}
 				checked[p] = true
-				// last promised value at p, and every candidate written after it
+				// allowed at p: the value of every write covering p that is not certainly superseded by a
+				// promised (stable) write - one whose call began after that write had been answered; the
+				// initial value only when no promised write covers p. (For a sequential history this is
+				// "the last promised value and everything written after it".)
 				var must *byte
 				var cands []byte
-				if b, ok := initial(p); ok {
-					cands = append(cands, b)
-				} else {
-					cands = append(cands, 0)
+				anyMust := false
+				for _, x := range writes {
+					if x.must && p >= x.off && p < x.off+uint64(len(x.data)) {
+						anyMust = true
+						vv := x.data[p-x.off]
+						must = &vv
+					}
+				}
+				if !anyMust {
+					if b, ok := initial(p); ok {
+						cands = append(cands, b)
+					} else {
+						cands = append(cands, 0)
+					}
 				}
 				for _, x := range writes {
-					if p >= x.off && p < x.off+uint64(len(x.data)) {
-						v := x.data[p-x.off]
-						if x.must {
-							vv := v
-							must = &vv
-							cands = cands[:0]
+					if p < x.off || p >= x.off+uint64(len(x.data)) {
+						continue
+					}
+					superseded := false
+					for _, y := range writes {
+						if y != x && y.must && p >= y.off && p < y.off+uint64(len(y.data)) && x.ret != 0 && y.inv > x.ret {
+							superseded = true
+							break
 						}
-						cands = append(cands, v)
+					}
+					if !superseded {
+						cands = append(cands, x.data[p-x.off])
 					}
 				}
 				got, present := content(p)
@@ -267,7 +348,33 @@ func runC22(t *testing.T, scAny any, trace bool) *Outcome {
 	return o
 }
 
+// genC22Conc: 2-3 clients writing (and committing) the one file at the same time.
+func genC22Conc(r *simrt.Rand) any {
+	sc := &C22Scn{InitSize: []int{0, 10, 5000}[r.Int(3)], Transfer: []int{0, 0, 4096}[r.Int(3)], Torn: r.Pct(50), Sched: RandSched(r), Workers: 2 + r.Int(3)}
+	sc.Sched.HorizonS = 600
+	nc := 2 + r.Int(2)
+	for ci := 0; ci < nc; ci++ {
+		var ops []C22Op
+		for i, n := 0, 1+r.Int(3); i < n; i++ {
+			if r.Pct(78) {
+				ops = append(ops, C22Op{Op: "WRITE", Off: uint64([]int{0, 0, 5, 100, 4090, 4096, 9000}[r.Int(7)]), Len: []int{1, 10, 17, 100, 3000}[r.Int(5)], Stable: uint32(r.Int(3)), Seed: r.Uint64()})
+			} else {
+				ops = append(ops, C22Op{Op: "COMMIT"})
+			}
+		}
+		sc.Conc = append(sc.Conc, ops)
+	}
+	for i, n := 0, r.Int(3); i < n; i++ {
+		sc.Stalls = append(sc.Stalls, simfs.Fault{Op: []string{"File.Sync", "File.WriteAt", "OpenFile", "File.Close", ""}[r.Int(5)], Nth: 1 + r.Int(8), Kind: "stall",
+			Stall: []time.Duration{time.Microsecond, time.Millisecond, 5 * time.Millisecond}[r.Int(3)]})
+	}
+	return sc
+}
+
 func genC22(r *simrt.Rand, tier string) any {
+	if r.Pct(35) {
+		return genC22Conc(r)
+	}
 	sc := &C22Scn{InitSize: []int{0, 10, 5000}[r.Int(3)], Transfer: []int{0, 16, 4096}[r.Int(3)], Torn: r.Pct(50), Sched: SeqSched(r.Uint64())}
 	n := 1 + r.Int(6)
 	for i := 0; i < n; i++ {
@@ -292,6 +399,24 @@ func genC22(r *simrt.Rand, tier string) any {
 func shrinkC22(scAny any) []any {
 	sc := scAny.(*C22Scn)
 	var out []any
+	for ci := range sc.Conc {
+		if len(sc.Conc) > 1 {
+			c := *sc
+			c.Conc = append(append([][]C22Op(nil), sc.Conc[:ci]...), sc.Conc[ci+1:]...)
+			out = append(out, &c)
+		}
+		for i := range sc.Conc[ci] {
+			c := *sc
+			c.Conc = append([][]C22Op(nil), sc.Conc...)
+			c.Conc[ci] = append(append([]C22Op(nil), sc.Conc[ci][:i]...), sc.Conc[ci][i+1:]...)
+			out = append(out, &c)
+		}
+	}
+	for i := range sc.Stalls {
+		c := *sc
+		c.Stalls = append(append([]simfs.Fault(nil), sc.Stalls[:i]...), sc.Stalls[i+1:]...)
+		out = append(out, &c)
+	}
 	for i := range sc.Ops {
 		c := *sc
 		c.Ops = append(append([]C22Op(nil), sc.Ops[:i]...), sc.Ops[i+1:]...)
@@ -320,7 +445,7 @@ func shrinkC22(scAny any) []any {
 
 func init() {
 	Register(&Prop{ID: "C22", Level: "fault_enumeration",
-		Rule: "one case = one sampled history of 1-6 requests (WRITE with each stable_how at offsets around page boundaries and lengths 1..5000 incl. above the transfer size, COMMIT, CREATE) on a file of 0/10/5000 initial bytes, in 30% of the histories with 1-2 of the first four backend Sync calls failing with EIO; the history is first run crash-free to count its B backend operations, then EVERY crash point k=0..B+1 (crash right after the k-th backend call returns; clean = all unsynced data lost, or torn = an arbitrary page subset and old-or-new size survive, drawn per history) is executed in its own simulated world: crash, restart of a new server instance on the durable state after a restart gap, read-back; oracle per byte: a byte acknowledged with committed=FILE_SYNC/DATA_SYNC or covered by an acknowledged COMMIT (and not superseded) holds that value; other touched bytes hold the old or one of the written values; the write verifier is constant within an instance and differs after the restart; non-trivial = the history makes at least one backend call; distinct by event digest over all crash points",
+		Rule: "one case = one sampled history of 1-6 requests (WRITE with each stable_how at offsets around page boundaries and lengths 1..5000 incl. above the transfer size, COMMIT, CREATE) on a file of 0/10/5000 initial bytes, in 30% of the histories with 1-2 of the first four backend Sync calls failing with EIO; the history is first run crash-free to count its B backend operations, then EVERY crash point k=0..B+1 (crash right after the k-th backend call returns; clean = all unsynced data lost, or torn = an arbitrary page subset and old-or-new size survive, drawn per history) is executed in its own simulated world; 35% of the histories are concurrent: 2-3 clients on their own connections issue 1-3 WRITE/COMMIT requests each on the one file (overlapping and disjoint ranges), 2-4 workers, 0-2 short backend stalls, every interleaving decided by the seeded scheduler - the crash points enumerated are then those of that interleaving (the run is deterministic, so the prefix before the crash repeats exactly) and a COMMIT covers the WRITEs acknowledged before it was sent: crash, restart of a new server instance on the durable state after a restart gap, read-back; oracle per byte: a byte acknowledged with committed=FILE_SYNC/DATA_SYNC or covered by an acknowledged COMMIT (and not superseded) holds that value; other touched bytes hold the old or one of the written values; the write verifier is constant within an instance and differs after the restart; non-trivial = the history makes at least one backend call; distinct by event digest over all crash points",
 		Gen:  genC22, New: func() any { return &C22Scn{} }, Run: runC22, Shrink: shrinkC22,
 		Real:        seqReal,
 		Stubbed:     []string{"backend with durability model (simfs: namespace ops durable on return, data/size volatile until Sync or O_SYNC; crash discards volatile state; old views fail after the crash)", "kernel TCP (simnet)", "clock", "scheduler"},
